@@ -99,6 +99,17 @@ def environment(U):
     rm.raises("FileNotFoundError", when="not fs().exists[p]")
     rm.modifies("FileSystem.exists[*]")
     rm.ensures("not fs().exists[p] and forall(tx, implies(tx != p, fs().exists[tx] == old(fs().exists)[tx]))")
+    # str(n) of an integer and string concatenation (the writer's file name): two true facts about strings, stated as axioms
+    U.spec_fun("istr", [INT], STR)
+    U.var("ty", STR)
+    U.var("tz", STR)
+    U.var("na", INT)
+    U.var("nb", INT)
+    U.axiom("forall(na, forall(nb, implies(istr(na) == istr(nb), na == nb)))", "str(int)-is-injective")
+    U.axiom("forall(tx, forall(na, forall(nb, implies(tx + istr(na) == tx + istr(nb), na == nb))))",
+            "a-common-prefix-cancels:prefix+str(a)==prefix+str(b)=>a==b")
+    si = U.library("str", {"x": INT}, STR)
+    si.ensures("result == istr(x)")
     rs = U.library("str.rstrip", {"s": STR, "chars": STR}, STR)
     rs.ensures("result == ite(chars == '\\n', rstrip_nl(s), rstrip_cr(s))")
     return E, L, V, H
@@ -124,6 +135,7 @@ def unit():
              " and 0 <= S._waiting_for.value and S._waiting_for.value <= len(S._index)"
              " and forall(h, 0, S._waiting_for.value, st(S._index, h))"
              " and not st(S._index, S._waiting_for.value)"
+             " and forall(i, 0, len(S._file_paths), S._file_paths[i] == S._path + '/' + S._file_prefix + '_' + istr(i))"
              " and forall(g, 0, len(S._index), implies(not is_none(S._index[g]),"
              "     0 <= some(S._index[g])[0] and some(S._index[g])[0] < len(S._file_paths)"
              "     and fs().complete[S._file_paths[some(S._index[g])[0]]][some(S._index[g])[1]]"
@@ -151,11 +163,17 @@ def unit():
         "len(self._index) >= len(old(self._index)) and forall(g, 0, len(old(self._index)), implies(not is_none(old(self._index)[g]),"
         " self._index[g] == old(self._index)[g]))",
         "len(self._file_paths) >= len(old(self._file_paths)) and forall(i, 0, len(old(self._file_paths)), self._file_paths[i] == old(self._file_paths)[i])",
-        "forall(tx, forall(o, implies(old(fs().complete)[tx][o], fs().complete[tx][o] and fs().lines[tx][o] == old(fs().lines)[tx][o])))",
-        "forall(tx, fs().size[tx] >= old(fs().size)[tx])",
+        # what other processes do to FILES is promised for the registered writer files only (a first open() creates / truncates a file
+        # whose name is not registered yet - whatever was under that name before is not the storage's)
+        "forall(i, 0, len(old(self._file_paths)), forall(o, implies(old(fs().complete)[old(self._file_paths)[i]][o],"
+        " fs().complete[old(self._file_paths)[i]][o] and fs().lines[old(self._file_paths)[i]][o] == old(fs().lines)[old(self._file_paths)[i]][o])))",
+        "forall(i, 0, len(old(self._file_paths)), fs().size[old(self._file_paths)[i]] >= old(fs().size)[old(self._file_paths)[i]])",
         "implies(not is_none(self._process_identifier), fs().size[%s] == old(fs().size)[%s]"
         " and same(fs().complete[%s], old(fs().complete)[%s]) and same(fs().lines[%s], old(fs().lines)[%s]))" % ((own,) * 6),
         "moninv(self)",
+        # a writer's identifier is its own: no other process records an entry under it (one writer file per process)
+        "implies(not is_none(self._process_identifier), forall(g, 0, len(self._index), implies(st(self._index, g) and not st(old(self._index), g),"
+        " some(self._index[g])[0] != some(self._process_identifier))))",
     ]
     U.interfere("TextFileStorage", when="self._storage_lock.depth == 0", modifies=shared, ensures=rely)
     unch = ("same(self._index, old(self._index)) and same(self._file_paths, old(self._file_paths)) and self._stored_cnt.value == old(self._stored_cnt.value)"
@@ -181,14 +199,42 @@ def unit():
     m.ensures("result == self._stored_cnt.value")
     m.ensures("implies(self._storage_lock.depth == 0, result == cnt(self._index, len(self._index)))", "len=number-of-stored-ids")
 
-    m = C.method("open", {}, trusted=True, note="assumed here (string building of the file name, 'w'/'a' modes); bounded layer exercises it")
-    m.modifies("self._file", "self._process_identifier", "self._file_paths", "FileSystem.size[*]", "FileSystem.complete[*]", "FileSystem.exists[*]")
+    # open(): the FIRST open of a writer registers a new file (named after the number of files registered so far, under the lock) and
+    # creates it with 'w'; every later open of the same writer APPENDS ('a').  No complete line of a registered file is lost either way:
+    # the new name differs from every registered one (naming invariant + injectivity of str(int) / concatenation).
+    U.define("wname", ["S", "i"], "S._path + '/' + S._file_prefix + '_' + istr(i)")
+    m = C.method("open", {}, locals={"path": STR})
+    m.at_call("after", "__enter__", ghost="g_n = len(self._file_paths)")
+    m.at_call("after", "__enter__", ghost="g_idx1 = self._index")
+    m.hint_exit("forall(i, 0, g_n, wname(self, i) != wname(self, g_n))", "the-new-name-differs-from-every-registered-one")
+    m.hint_exit("forall(g, 0, len(g_idx1), implies(st(g_idx1, g), some(g_idx1[g])[0] < g_n))", "no-entry-under-the-new-identifier-when-it-was-assigned")
+    m.hint_exit("forall(g, 0, len(self._index), implies(st(self._index, g), some(self._index[g])[0] != g_n))", "nor-afterwards")
+    m.requires("self._storage_lock.depth == 0", "lock-not-held-by-the-caller")
+    m.modifies("self._file", "self._process_identifier", "RLock.depth[*]", "FileSystem.exists[*]", *shared)
     m.ensures("implies(not self.reader_only, self._file != None)", "a-writer-has-its-file-open")
     m.ensures("implies(old(self._file) != None, self._file == old(self._file))")
+    m.ensures("self._storage_lock.depth == 0")
+    for r_ in rely[:4]:
+        m.ensures(r_)
+    m.ensures("implies(not is_none(old(self._process_identifier)), self._process_identifier == old(self._process_identifier)"
+              " and fs().size[%s] == old(fs().size)[%s] and same(fs().complete[%s], old(fs().complete)[%s])"
+              " and same(fs().lines[%s], old(fs().lines)[%s]))" % ((own,) * 6), "re-opening-appends:the-writer's-own-file-keeps-every-line")
+
+    # close(): the writer handle and every reader handle of this object are closed and forgotten; nothing shared is touched
+    m = C.method("close", {}, locals={"f": RefS("FHandle")})
+    m.modifies("self._file", "self._opened_files_for_reading", "FHandle.closed[*]", *shared)
+    lp = m.loop(1)
+    lp.invariant("same(self._opened_files_for_reading, old(self._opened_files_for_reading)) and self._file == None"
+                 " and self._storage_lock.depth == old(self._storage_lock.depth)")
+    lp.invariant("forall(t, 0, _i1, implies(_seq1[t] != None, _seq1[t].closed))")
+    lp.invariant("implies(old(self._file) != None, old(self._file).closed)")
+    lp.invariant("implies(old(self._storage_lock.depth) >= 1, %s)" % unch)
+    m.ensures("self._file == None and len(self._opened_files_for_reading) == 0", "no-handle-kept")
+    m.ensures("implies(old(self._file) != None, old(self._file).closed)", "writer-handle-closed")
+    m.ensures("forall(t, 0, len(old(self._opened_files_for_reading)), implies(old(self._opened_files_for_reading)[t] != None,"
+              " old(self._opened_files_for_reading)[t].closed))", "every-reader-handle-closed")
     m.ensures("self._storage_lock.depth == old(self._storage_lock.depth)")
-    m.ensures("len(self._file_paths) >= len(old(self._file_paths)) and forall(i, 0, len(old(self._file_paths)), self._file_paths[i] == old(self._file_paths)[i])")
-    m.ensures("forall(tx, forall(o, implies(old(fs().complete)[tx][o], fs().complete[tx][o])))")
-    m.no_interference = True
+    env_effect(m)
 
     idx = "self._index"
     L_ = "len(self._index)"
@@ -315,12 +361,12 @@ def unit():
     m.ensures("len(idx0) >= len(old(self._index)) and forall(p, 0, len(old(self._index)), implies(st(old(self._index), p), st(idx0, p)))",
               "in-particular-every-id-stored-before-the-call")
 
-    U.library("str", {"x": INT}, STR)
-    for f in ("__len__", "__setitem__", "_is_file_open_for_read", "_open_file_for_read", "__getitem__", "is_contiguous", "flush", "__iter__"):
+    for f in ("__len__", "open", "close", "__setitem__", "_is_file_open_for_read", "_open_file_for_read", "__getitem__", "is_contiguous", "flush", "__iter__"):
         U.verify("TextFileStorage", f)
     U.assume("multiprocessing primitives (DESIGN §4): the RLock gives mutual exclusion and is re-entrant; manager list / Value behave as their "
              "local counterparts while the lock is held; print(..., flush=True) appends one complete line; files are append-only")
     U.assume("ids >= 0; texts are single lines without a trailing carriage return; one writer file per process")
-    U.assume("TextFileStorage.open / close (file-name building, 'w' / 'a' modes) are assumed contracts; during an iteration the consumer of "
-             "__iter__ does not modify the storage from the same thread (the re-entrant lock would let it)")
+    U.assume("string facts used for the writer's file name (axioms): str(int) is injective and a common prefix cancels; a writer's process "
+             "identifier is its own (no other process records entries under it: one writer file per process); during an iteration the consumer "
+             "of __iter__ does not modify the storage from the same thread (the re-entrant lock would let it)")
     return U
